@@ -74,6 +74,7 @@ class Cfg(object):
         self.auto_nf = True  # automatic tasks bound to a component may be flagged need_facility
         self.default_names = 6  # 1 in n specs: workers, teams, workplaces, components all have their kind's default name
         self.unit_time = 0  # 1 in n cold-started specs is simulated with unit_time 2 or 3 (only honoured by simcheck.Sim and C07/C15)
+        self.side_wf = 0  # (off) 1 in n specs: some tasks are also put into a second BaseWorkflow object - pDESy MOVES a task that way (parent_workflow is one pointer, read by the LWRPT/SWRPT rules), so such a model is a different model, see DESIGN section 4
         self.extend_style = 6  # 1 in n specs is wired through the extend_* helpers instead of append_*
         for k, v in kw.items():
             if not hasattr(self, k):
@@ -321,6 +322,8 @@ def model_spec(draw, cfg):
                 )
                 if k != i
             ]
+            if wp["inputs"] and _one_in(draw, cfg.onesided):
+                wp["inputs_onesided"] = True
         wps.append(wp)
     for f in facs:
         sk = draw(st.lists(skill_s, min_size=n, max_size=n))
@@ -355,7 +358,9 @@ def model_spec(draw, cfg):
         spec["names"] = draw(st.lists(st.sampled_from(NAME_POOL), min_size=n, max_size=n))
         share_skills_by_name(spec)
     if _one_in(draw, cfg.ids_flat):
-        spec["ids"] = "flat"
+        spec["ids"] = draw(st.sampled_from(["flat", "prefix"]))
+    if n > 1 and _one_in(draw, cfg.side_wf):
+        spec["side_wf"] = sorted(set(draw(st.lists(st.integers(0, n - 1), min_size=1, max_size=3))))
     if _one_in(draw, cfg.extend_style):
         spec["extend"] = True
     if _one_in(draw, cfg.default_names):
